@@ -10,15 +10,15 @@ RULE = ("filter programs drawn from a grammar over the registered methods (neste
         "let-bound constants of every literal type, all six log methods, early accept/reject) over small shared pools "
         "of AS numbers, communities, attribute codes and prefixes, so predicates hit often; each program is compiled "
         "by roto from its printed source and run on 6-12 generated routes / UPDATEs / BMP messages (c10), on UPDATE "
-        "streams through the real RIB unit (c10rib) and on BMP sessions through the real router handler (c10bmp); a "
+        "streams through the real RIB unit (c10rib), on scripted BGP sessions through the real Processor::process (c10bgp) and on BMP sessions through the real router handler (c10bmp); a "
         "case is non-trivial when its inputs get both verdicts or at least one output entry; distinct = distinct case text")
 TRUSTED_BASE = [
     "Coq 8.16.1 kernel (coqc; coqchk in thorough); no native_compute",
-    "extraction with ExtrOcamlBasic only; OCaml driver oracle/{conv,c10lib,eng_c10,eng_c10rib,eng_c10bmp,oracle}.ml",
-    "Rust harness engines c10/c10rib/c10bmp: print Roto source from the program text, compile it with roto 0.4.0 against "
+    "extraction with ExtrOcamlBasic only; OCaml driver oracle/{conv,c10lib,eng_c10,eng_c10rib,eng_c10bgp,eng_c10bmp,oracle}.ml",
+    "Rust harness engines c10/c10rib/c10bgp/c10bmp: print Roto source from the program text, compile it with roto 0.4.0 against "
     "create_runtime() through a file as the manager does (facade rotonda::verif::filter), build UPDATE / BMP bytes, call the "
     "typed functions as the units do, drive the real RibUnitRunner::process_update (filter installed with the guarded setter) "
-    "and the real bmp RouterHandler::process_msg, capture the gate output with a direct-update link",
+    "the real bgp Processor::process session loop and the real bmp RouterHandler::process_msg, capture the gate output with a direct-update link",
     "modelled, not verified: src/roto_runtime/{runtime,types}.rs, the call sites in rib_unit/unit.rs, "
     "bmp_tcp_in/router_handler.rs, bgp_tcp_in/router_handler.rs; roto's compiler and routecore's parsers are exercised, not modelled",
 ]
@@ -26,12 +26,13 @@ ASSUMPTIONS = [
     "the Roto fragment is the one of the grammar (no match, no records/lists, no string methods, no LogEntry builder)",
     "IPv4 unicast on the byte level; attribute sets are those the harness encoder writes (ORIGIN, AS_PATH with sequences and sets, "
     "NEXT_HOP, MED, LOCAL_PREF, ATOMIC_AGGREGATE, COMMUNITIES, LARGE_COMMUNITIES, OTC, one unknown type)",
-    "the bgp-in call site sits inside the session select loop and is not driven; its logic (same shape as bmp-in) is proved in the model only",
+    "the bgp-in call site is driven through a scripted session (guarded hook): established session with routecore's NegotiatedConfig::dummy(), "
+    "the UPDATEs of the case, then connection lost; the BGP FSM and the TCP side are not exercised",
     "contains_large_community cannot be reached from a script: create_runtime registers no way to make a LargeCommunity value",
 ]
 
-ASNS = [65001, 65002, 65003, 64512, 174, 4200000001]
-ASNS16 = [65001, 65002, 65003, 64512, 174]
+ASNS = [65001, 65002, 65003, 64512, 174, 4200000001, 12345]
+ASNS16 = [65001, 65002, 65003, 64512, 174, 12345]
 COMMS = [0xFFFF029A, 0xFFFFFF01, (65001 << 16) | 100, 7, (174 << 16) | 666]
 LCOMMS = ["65001:1:2", "4200000001:0:9", "174:3:3"]
 EXTRA = [4, 5, 6, 35, 99]
@@ -361,6 +362,45 @@ def corpus_c10bmp():
     ]
 
 
+def gen_c10bgp(rng, tier):
+    n = 800 if tier == "quick" else 16000
+    for _ in range(n):
+        prog = "none" if rng.chance(8) else gen_prog(rng, "bgp", peerdown=6)
+        ops = ["F bgp %s" % prog]
+        pool = [rng.choice(PFXS) for _ in range(3)]
+        for tag in range(1, rng.range(2, 7)):
+            ann = sorted({rng.choice(pool) for _ in range(rng.below(4))})
+            wd = sorted({rng.choice(pool) for _ in range(rng.below(3))} - set(ann)) if rng.chance(40) else []
+            ops.append("G %d %s %s %s" % (tag, gen_attrs(rng), ",".join(map(str, ann)) or "-", ",".join(map(str, wd)) or "-"))
+        yield ";".join(ops)
+
+
+def nontrivial_bgp(case, out):
+    return "O[" in out or ("U[" in out and out.count("U[") < case.count(";G "))
+
+
+def classify_bgp(case, out):
+    ks = ["no-filter" if case.startswith("F bgp none") else "filter"]
+    nu, ng = out.count("U["), case.count(";G ")
+    ks.append("all-accepted" if nu == ng else "all-rejected" if nu == 0 else "some-rejected")
+    if "O[" in out:
+        ks.append("has-output")
+    if "O[]" in out:
+        ks.append("empty-output-stream-update")
+    return ks
+
+
+def corpus_c10bgp():
+    P, P2 = PFXS[0], PFXS[3]
+    return [
+        "F bgp if pasn #12345 out custom #1 #1 end end if asc #65001 out asn #65001 out peerdown ret R end ret A;"
+        "G 5 s65001.65003/-/-/- %d -;G 6 s65003/-/-/- %d,%d -;G 7 -/-/-/- - %d" % (P, P2, P, P),
+        "F bgp none;G 5 s65001.65003/-/-/- %d -" % P,
+        "F bgp let asn 65536 let com 4294902426 if aso $0 out origin $0 end end if com $1 out comm $1 end end ret A;"
+        "G 1 s65001.65536/4294902426/-/- %d -;G 2 s65536.65001/7/-/- %d %d" % (P, P2, P),
+    ]
+
+
 def known_signature(k, engine, case, mo, spec, im):
     """A failing (minimised) case belongs to a recorded finding iff every token where the implementation departs from the
     property's answer agrees with the model and is explained by the recorded classes, and the finding's own class is
@@ -379,6 +419,8 @@ def known_signature(k, engine, case, mo, spec, im):
 ENGINES = [
     {"name": "c10", "gen": gen_c10, "corpus": corpus_c10, "nontrivial": nontrivial_c10, "classify": classify_c10, "shards": 4},
     {"name": "c10rib", "gen": gen_c10rib, "corpus": corpus_c10rib, "nontrivial": nontrivial_rib, "classify": classify_rib, "shards": 4},
+    {"name": "c10bgp", "gen": gen_c10bgp, "corpus": corpus_c10bgp, "nontrivial": nontrivial_bgp, "classify": classify_bgp, "shards": 4,
+     "shrink": True},
     {"name": "c10bmp", "gen": gen_c10bmp, "corpus": corpus_c10bmp, "nontrivial": nontrivial_bmp, "classify": classify_bmp, "shards": 4},
 ]
 
@@ -389,6 +431,5 @@ LEVEL_TEXT = ("Theorems over ALL filter functions, units and renderings for the 
               "lemmas with _partial theorems; model tied to the code by running generated programs, compiled by roto, against the evaluator.")
 DESIGN_REF = "DESIGN.md section 6, C10"
 LEVEL_NOTE = ("Trusted: Coq kernel, ExtrOcamlBasic extraction + OCaml driver, Rust harness (program printer, byte encoders) and generators. "
-              "roto's compiler and routecore's parsers are on the implementation side of the diff, not modelled. The bgp-in call site is "
-              "proved in the model but not driven on the real code.")
+              "roto's compiler and routecore's parsers are on the implementation side of the diff, not modelled.")
 TECHNIQUE = "Coq proof over a deep embedding (structural induction on programs, parametric call-site theorems) + model/implementation correspondence"
